@@ -117,6 +117,9 @@ fn main() {
                 match r {
                     Ok(c) => {
                         println!("case {} evaluations={} violations={}", n, c.evals, c.viols.len());
+                        for (k, v) in &c.counters {
+                            println!("    {} = {}", k, v);
+                        }
                         for v in &c.viols {
                             println!("  {}: {}", v.sig, v.msg);
                         }
